@@ -4,7 +4,7 @@ import json, os, re, glob
 HERE = os.path.dirname(os.path.dirname(os.path.abspath(__file__)))
 props = {json.loads(l)["id"]: json.loads(l)["title"] for l in open(os.path.join(HERE, "properties.jsonl"))}
 rows = []
-for d in sorted(glob.glob(os.path.join(HERE, "seeded", "C*-m*"))):
+for d in sorted(glob.glob(os.path.join(HERE, "seeded", "C*-*m[0-9]"))):
     mid = os.path.basename(d)
     ev = os.path.join(d, "eval.txt")
     if not os.path.exists(ev):
